@@ -82,6 +82,9 @@ def compileFile (opts : Opts) (fs : FS) (cfgs : List (Path × ProjCfg)) (file : 
   | some text =>
     let dir := parentDir file
     let (eff, wr) := calculateOptions opts ((cfgs.find? (·.1 == dir)).map (·.2))
-    (compile eff fs (some file) (.text text), wr.map (dir, ·))
+    -- `Stack.__init__` compares the pile's length with the limit by `==`: a limit of 0 (only a configuration file can say so; the
+    -- command line accepts 5..200) is never reached, i.e. disables the limit — outside the model's domain
+    if eff.stackLimit == 0 then (.oom "a stack limit of 0 disables the limit", wr.map (dir, ·))
+    else (compile eff fs (some file) (.text text), wr.map (dir, ·))
 
 end Duckling
